@@ -22,6 +22,8 @@ import DDProps.C02Copy
 import DDProps.C03
 import DDProps.C04
 import DDProps.C05
+import DDProps.C05Auto
+import DDProps.C05Grammar
 import DDProps.C05Lex
 import DDProps.C06
 import DDProps.C06Rooted
@@ -49,6 +51,7 @@ import DDProps.C14
 import DDProps.C15
 import DDProps.C16
 import DDProps.C16Chain
+import DDProps.C16Text
 import DDProps.C17
 import DDProps.C17Load
 import DDProps.C17Load2
